@@ -592,3 +592,25 @@ fn c34_mpsc_last_sender_drop_p5__known() {
 fn c34_notification_schedule_k7() {
     notification_schedule::<7>();
 }
+
+// ---- temporary measurement harnesses ----
+// @check props=C34 tier=quick
+// @desc tmp
+// @bounds tmp
+#[kani::proof]
+#[kani::unwind(4)]
+#[kani::stub(critical_section::acquire, super::support_cs::cs_acquire)]
+#[kani::stub(critical_section::release, super::support_cs::cs_release)]
+fn c34_tmp_oneshot_k3() {
+    oneshot_schedule::<3>();
+}
+// @check props=C34 tier=quick
+// @desc tmp
+// @bounds tmp
+#[kani::proof]
+#[kani::unwind(5)]
+#[kani::stub(critical_section::acquire, super::support_cs::cs_acquire)]
+#[kani::stub(critical_section::release, super::support_cs::cs_release)]
+fn c34_tmp_oneshot_k4() {
+    oneshot_schedule::<4>();
+}
